@@ -155,9 +155,11 @@ pub trait PostConversionLinter {
     fn visit_assignment(
         &mut self,
         assignment: &Assignment,
-        _name_pos: Position,
+        name_pos: Position,
     ) -> Result<(), LintErrorPos> {
-        let (_, v) = assignment.into();
+        let (name, v) = assignment.into();
+        // the target can hold expressions too: the indices of an array element
+        self.visit_expression(&name.clone().at_pos(name_pos))?;
         self.visit_expression(v)
     }
 
